@@ -322,6 +322,8 @@ def run(ctx):
     try:
         _run_structural(ctx)
     except (AnalysisError, Exception) as exc:
+        if isinstance(exc, (NameError, ImportError, UnboundLocalError)):
+            raise       # a defect of the checker itself, never a reason to fall back
         if any(w[2] is not None or w[1] for w in (wst, wrun)):
             raise
         r0 = ctx.rule("R0", "the effect-closure analysis cannot follow this shape; decided by the evaluated commands")
